@@ -584,13 +584,16 @@ int main(int argc, char** argv) {
         explore<W2>(5, shard, nshards, {});
         explore<W2>(4, shard, nshards, full_a);
         explore<W2>(4, shard, nshards, full_b);
+        std::vector<int> both = full_a;
+        both.insert(both.end(), full_b.begin(), full_b.end());
+        explore<W2>(4, shard, nshards, both);
         g_family = "WE";
         explore<WE>(5, shard, nshards, {});
         explore<WE>(4, shard, nshards, full_a);
+        explore<WE>(4, shard, nshards, full_b);
+        explore<WE>(4, shard, nshards, both);
         g_family = "W3";
         explore<W3>(4, shard, nshards, {});
-        std::vector<int> both = full_a;
-        both.insert(both.end(), full_b.begin(), full_b.end());
         explore<W3>(3, shard, nshards, both);
     }
     for (auto& c : g_cands)
